@@ -1045,7 +1045,7 @@ pub fn check_trace_prop(which: u32, cfg: &RunCfg, findings: &Findings) -> Report
   }
   {
     // slow-time slice: generated cases with a real back-off and / or a late poll, one thread each
-    let n_slow = if quick { 192 } else { 1_024 };
+    let n_slow = if quick { 256 } else { 1_024 };
     let wide = RunCfg { seed: cfg.seed, tier: cfg.tier, threads: 256 };
     let (st, fail) = run_prop_iters(
       &wide,
@@ -1056,7 +1056,10 @@ pub fn check_trace_prop(which: u32, cfg: &RunCfg, findings: &Findings) -> Report
       1000,
       12,
       |src: &mut Src| {
-        let mut c = gen_loop_case(src, which, true)?;
+        // (half of C10's slow cases come from the repeat-heavy generator: a late poll or a
+        // back-off matters most while a repeat is pending)
+        let gw = if which == 10 && src.chance(50) { 11 } else { which };
+        let mut c = gen_loop_case(src, gw, true)?;
         if c.script.kb_events.len() > 200 {
           return None;
         }
